@@ -13,6 +13,10 @@ kinds
   UCallNC m   a NON-const member function `m` of Circuit is called on it
   UPass   g   it is handed as a non-const reference to function / constructor `g`
   UStore  m   it initialises the reference member `m` of the enclosing class (constructor initialiser)
+  URaii   f   (member functions of Circuit only) the field `f` is the constructor argument of an automatic variable, declared as a statement
+              of the function body, of a class recognised BY ITS SHAPE as a scope guard of a boolean flag (scope_guard_classes: sets the flag,
+              gives it its previous value back in the destructor, not copyable); listed as the pseudo-field "@raii:f" of the method table.
+              A DIRECT assignment to the flag (isInUse_ = true) stays a UWrite, which the rule of coq/CircuitAccess.v rejects in an entry point
   UParam  p   the function has a parameter `p` of type (non-const) Circuit& (so that the table knows every function that can receive one)
   UUnknown s  anything else (the expression escapes in a way not understood)
 Uses through a `const Circuit &` (implicit NoOp cast to const, const member functions) cannot modify the
@@ -80,6 +84,7 @@ class Analyzer:
         self.this_mode = False # True while scanning a member function of Circuit itself
         self.odd_source = None
         self.line = 0
+        self.guards = set()    # classes of this translation unit recognised as scope guards of a boolean flag (scope_guard_classes)
 
     # ---------- declarations
     def index_decls(self, n, rec=None):
@@ -222,6 +227,15 @@ class Analyzer:
                                 return self.add(fn, "URead", fieldname, chain[idx])
                         break
                 return self.add(fn, "UOther", fieldname, chain[idx])
+            if pk == "CXXConstructExpr" and self.this_mode and x == idx:
+                # the field itself is the constructor argument of an object: the in-use flag handed to its scope guard?  Only when the class has
+                # the shape scope_guard_classes() recognises AND the object is an automatic variable declared as a statement of the function body
+                # (chain = body / DeclStmt / VarDecl / CXXConstructExpr / field): it then lives until the function is left, by return or exception
+                cls = re.sub(r"^.*::", "", re.sub(r"^(const\s+)?(struct\s+|class\s+)?", "", qt(p)).strip())
+                if (cls in self.guards and idx == 4 and chain[0].get("kind") == "CompoundStmt" and chain[1].get("kind") == "DeclStmt"
+                        and chain[2].get("kind") == "VarDecl" and not chain[2].get("storageClass") and len(_kids(p)) == 1):
+                    return self.add(fn, "URaii", fieldname, chain[idx])
+                return self.add(fn, "UOther", fieldname, chain[idx])
             return self.add(fn, "UOther", fieldname, chain[idx])
 
     def classify_circuit_use(self, fn, chain, idx):
@@ -295,6 +309,95 @@ def walk(n):
     for c in n.get("inner", []) or []:
         if isinstance(c, dict):
             yield from walk(c)
+
+
+def _kids(n):
+    return [c for c in n.get("inner", []) or [] if isinstance(c, dict) and not c.get("kind", "").endswith("Comment")]
+
+
+def _unwrap(n):
+    while n.get("kind") in TRANSPARENT and len(_kids(n)) == 1:
+        n = _kids(n)[0]
+    return n
+
+
+def _is_this_member(n, field):
+    n = _unwrap(n)
+    k = _kids(n)
+    return n.get("kind") == "MemberExpr" and n.get("name") == field and len(k) == 1 and _unwrap(k[0]).get("kind") == "CXXThisExpr"
+
+
+def scope_guard_classes(objs):
+    """names of the classes of this translation unit that are SCOPE GUARDS OF A BOOLEAN FLAG, recognised by their shape only:
+         struct G { explicit G(bool &f) : ref_(f), saved_(f) { ref_ = true; }  ~G() { ref_ = saved_; }
+                    G(const G &) = delete;  G &operator=(const G &) = delete;  bool &ref_;  bool saved_; };
+       exactly two fields (a `bool &` and a `bool`); ONE constructor that is not deleted: one `bool &` parameter bound to the reference field, the
+       bool field initialised from it, body = the single statement `ref_ = true`; a destructor whose body is the single statement
+       `ref_ = saved_`; the copy constructor and every other member function deleted.  An automatic variable of such a class, declared as a
+       statement of a function body, sets the flag for exactly the rest of the function and gives it its previous value back on EVERY exit
+       (return or exception): this is what the pseudo-field "@raii:<flag>" of the method table means.  Anything else that touches the flag stays
+       an ordinary write / unclassified use."""
+    out = set()
+    for o in objs:
+        for w in walk(o):
+            if w.get("kind") != "CXXRecordDecl" or not w.get("completeDefinition") or not w.get("name"):
+                continue
+            fields = [c for c in _kids(w) if c.get("kind") == "FieldDecl"]
+            if len(fields) != 2:
+                continue
+            ref = [f for f in fields if f.get("type", {}).get("qualType") == "bool &"]
+            sav = [f for f in fields if f.get("type", {}).get("qualType") == "bool"]
+            if len(ref) != 1 or len(sav) != 1:
+                continue
+            R, S = ref[0].get("name"), sav[0].get("name")
+            ctors = [c for c in _kids(w) if c.get("kind") == "CXXConstructorDecl" and not c.get("isImplicit")]
+            live = [c for c in ctors if not c.get("explicitlyDeleted")]
+            copy_deleted = any(c.get("explicitlyDeleted") and re.search(r"\(const .*&\)", c.get("type", {}).get("qualType", "")) for c in ctors)
+            dtors = [c for c in _kids(w) if c.get("kind") == "CXXDestructorDecl" and not c.get("isImplicit")]
+            others = [c for c in _kids(w) if c.get("kind") in ("CXXMethodDecl", "CXXConversionDecl", "FunctionTemplateDecl") and not c.get("isImplicit")]
+            if len(live) != 1 or not copy_deleted or len(dtors) != 1 or any(not c.get("explicitlyDeleted") for c in others):
+                continue
+            ct = live[0]
+            params = [c for c in _kids(ct) if c.get("kind") == "ParmVarDecl"]
+            inits = [c for c in _kids(ct) if c.get("kind") == "CXXCtorInitializer"]
+            body = [c for c in _kids(ct) if c.get("kind") == "CompoundStmt"]
+            if len(params) != 1 or params[0].get("type", {}).get("qualType") != "bool &" or len(inits) != 2 or len(body) != 1:
+                continue
+            P = params[0].get("name")
+
+            def is_param(n):
+                n = _unwrap(n)
+                return n.get("kind") == "DeclRefExpr" and n.get("referencedDecl", {}).get("name") == P and n.get("referencedDecl", {}).get("kind") == "ParmVarDecl"
+
+            def init_of(name):
+                m = [i for i in inits if i.get("anyInit", {}).get("name") == name]
+                return _kids(m[0])[0] if len(m) == 1 and len(_kids(m[0])) == 1 else None
+            ir, isv = init_of(R), init_of(S)
+            if ir is None or isv is None or not is_param(ir):
+                continue
+            isv = _unwrap(isv)
+            if not (isv.get("kind") == "ImplicitCastExpr" and isv.get("castKind") == "LValueToRValue" and len(_kids(isv)) == 1 and
+                    (is_param(_kids(isv)[0]) or _is_this_member(_kids(isv)[0], R))):
+                continue
+            st = _kids(body[0])
+            if len(st) != 1 or st[0].get("kind") != "BinaryOperator" or st[0].get("opcode") != "=" or len(_kids(st[0])) != 2:
+                continue
+            lhs, rhs = _kids(st[0])
+            if not _is_this_member(lhs, R) or _unwrap(rhs).get("kind") != "CXXBoolLiteralExpr" or _unwrap(rhs).get("value") is not True:
+                continue
+            db = [c for c in _kids(dtors[0]) if c.get("kind") == "CompoundStmt"]
+            if len(db) != 1 or len(_kids(db[0])) != 1:
+                continue
+            ds = _kids(db[0])[0]
+            if ds.get("kind") != "BinaryOperator" or ds.get("opcode") != "=" or len(_kids(ds)) != 2:
+                continue
+            dl, dr = _kids(ds)
+            dr = _unwrap(dr)
+            if not _is_this_member(dl, R) or not (dr.get("kind") == "ImplicitCastExpr" and dr.get("castKind") == "LValueToRValue" and
+                                                  len(_kids(dr)) == 1 and _is_this_member(_kids(dr)[0], S)):
+                continue
+            out.add(w["name"])
+    return out
 
 
 def function_defs(objs, main_file):
@@ -389,6 +492,7 @@ def translate(repo):
         for o in objs:   # second pass: out-of-line definitions seen before their class id was known
             an.index_decls(o)
         access = circuit_access_specs(objs)
+        an.guards = scope_guard_classes(objs)
         for name, d in function_defs(objs, src):
             if name.startswith("Circuit::"):
                 # the API itself: second table (which member functions write what, and whether they are guarded)
@@ -454,6 +558,7 @@ def coq_text(uses, nfun, nsrc):
         guard = min([u[3] for u in m["uses"] if u[1] == "UGuard"] or [0])
         wr = [(u[2] if u[1] != "UUnknown" else "?" + u[2], u[3]) for u in m["uses"] if u[1] in ("UWrite", "UOther", "UUnknown")]
         wr += [("@pass:" + u[2], u[3]) for u in m["uses"] if u[1] == "UPass"]   # *this handed on as a non-const reference
+        wr += [("@raii:" + u[2], u[3]) for u in m["uses"] if u[1] == "URaii"]   # the field handed to a scope guard living to the end of the function
         wr.sort(key=lambda w: (w[1], w[0]))
         calls = sorted(set(u[2] for u in m["uses"] if u[1] == "UCallNC"))
         mb.append("  mkM %s %s %s %d [%s] [%s]" % (s(m["name"]), "true" if m["public"] else "false", "true" if m["const"] else "false", guard,
@@ -469,6 +574,9 @@ MODELLED_SETTERS = {"addNet": True, "setNets": True, "setRows": True, "setupRows
                     "setCellHeight": False, "setNetWeights": False, "setSolution": False}
 
 
+ENTRY_METHODS = ("placeGlobal", "legalize", "placeDetailed", "place")
+
+
 def offending_methods(methods):
     """independent replica of CircuitAccess.circuit_methods_okb, used only to NAME what the Coq theorem rejects"""
     bad = []
@@ -478,7 +586,19 @@ def offending_methods(methods):
         guard = min([u[3] for u in m["uses"] if u[1] == "UGuard"] or [0])
         wr = [(u[2], u[3]) for u in m["uses"] if u[1] in ("UWrite", "UOther", "UUnknown")]
         passes = [(u[2], u[3]) for u in m["uses"] if u[1] == "UPass"]
-        inuse = [l for f, l in wr if f == "isInUse_"]
+        inuse = [u[3] for u in m["uses"] if u[1] == "URaii" and u[2] == "isInUse_"]      # the flag handed to its scope guard ("@raii:isInUse_")
+        if m["name"] in ENTRY_METHODS and m["name"] not in MODELLED_SETTERS:
+            for f, l in wr:
+                if f == "isInUse_":
+                    bad.append("Circuit::%s (placement entry point) writes the in-use flag DIRECTLY (line %d) instead of through a scope guard object: "
+                               "no exception path restores it" % (m["name"], l))
+            for u in m["uses"]:
+                if u[1] == "URaii" and u[2] != "isInUse_":
+                    bad.append("Circuit::%s hands %s to a scope guard (line %d): only the in-use flag is expected" % (m["name"], u[2], u[3]))
+                if u[1] == "UCallNC" and u[2] not in ENTRY_METHODS:
+                    bad.append("Circuit::%s (placement entry point) calls %s, which is not a placement entry point" % (m["name"], u[2]))
+        elif any(u[1] == "URaii" for u in m["uses"]):
+            bad.append("Circuit::%s (not a placement entry point) constructs a scope guard on %s" % (m["name"], sorted(set(u[2] for u in m["uses"] if u[1] == "URaii"))))
         for callee, l in passes:
             if m["name"] in ("placeGlobal", "legalize", "placeDetailed", "place"):
                 if not any(g < l for g in inuse):
@@ -497,14 +617,18 @@ def offending_methods(methods):
         else:
             if guard != 0:
                 bad.append("Circuit::%s calls checkNotInUse() but is not a setter of the model" % m["name"])
-            allowed = ("isInUse_",) if m["name"] in ("placeGlobal", "legalize", "placeDetailed", "place") else \
+            allowed = () if m["name"] in ENTRY_METHODS else \
                       ("cellWidth_",) if m["name"] in ("expandCellsToDensity", "expandCellsByFactor") else ()
-            extra = sorted(set(f for f, _ in wr if f not in allowed))
+            extra = sorted(set(f for f, _ in wr if f not in allowed and not (f == "isInUse_" and m["name"] in ENTRY_METHODS)))   # reported above
             if extra:
                 bad.append("Circuit::%s (not one of the model's setters) writes %s" % (m["name"], extra))
     for n in MODELLED_SETTERS:
         if not any(m["name"] == n and m["public"] and not m["const"] for m in methods):
             bad.append("the model's setter %s is not a public non-const member function of Circuit any more" % n)
+    for n in ENTRY_METHODS:
+        if not any(m["name"] == n and m["public"] and not m["const"] for m in methods):
+            bad.append("the placement entry point %s is not in the table as a public non-const member function of Circuit (inline definitions of "
+                       "coloquinte.hpp not scanned?)" % n)
     return bad
 
 
